@@ -78,12 +78,13 @@ Definition judge_c06 (g : cfg) (u : g06) (o : obs) : list N * g06 :=
       else []
     | None => []
     end in
-  (* (1) an accepted QoS>0 PUBLISH is requested for sending at once or kept in the store *)
+  (* (1) an accepted QoS>0 PUBLISH — and an accepted PUBREL — is requested for sending at once or kept in
+     the store *)
   let v1 :=
     match ob_op o with
     | OSend p =>
-      if (k_type p =? T_PUBLISH) && negb (k_qos p =? 0) && negb (existsb is_error evs) then
-        if existsb (fun q => (k_type q =? T_PUBLISH) && (k_pid q =? k_pid p)) (sends evs)
+      if (((k_type p =? T_PUBLISH) && negb (k_qos p =? 0)) || (k_type p =? T_PUBREL)) && negb (existsb is_error evs) then
+        if existsb (fun q => (k_type q =? k_type p) && (k_pid q =? k_pid p)) (sends evs)
            || memb (k_pid p) (store_ids post) then
           (* while the session is persistent (ghost) it is stored *)
           (if g6_pers u && negb (memb (k_pid p) (store_ids post)) then [27; k_pid p] else [])
@@ -238,10 +239,21 @@ Definition judge_c07 (g : cfg) (gh : g07) (o : obs) : list N * g07 :=
   let rel_in := map k_pid (filter (fun p => k_type p =? T_PUBREL) (notifies evs)) in
   let rel_out := map k_pid (filter (fun p => (k_type p =? T_PUBREC) && k_rc_present p && (128 <=? k_rc p)) (sends evs)) in
   let d3 := fold_left (fun l id => remove_all id l) (rel_in ++ rel_out) d2 in
+  (* a retransmission (identifier already notified, not yet released) that passed validation on an
+     established connection is answered with PUBREC, whether or not automatic responses are on *)
+  let unanswered :=
+    match recv_pkt o with
+    | Some p =>
+      (k_type p =? T_PUBLISH) && (k_qos p =? 2) && is_nil (errors evs) && memb (k_pid p) d1
+      && status_eqb (c_status pre) Connected
+      && negb (existsb (fun q => (k_type q =? T_PUBREC) && (k_pid q =? k_pid p)) (sends evs))
+    | None => false
+    end in
   let v :=
     if dup_delivery then [1]
     else if swallowed then [2]
     else if negb (nlist_eqb (sort_n d3) (sort_n (c_qos2 post))) then [3; N.of_nat (length d3); N.of_nat (length (c_qos2 post))]
+    else if unanswered then [4]
     else [] in
   (v, mkG07 d3).
 
